@@ -45,7 +45,7 @@ def make_scheduler(kind, mode="min", seed=11, max_t=4, finite=False, **kw):
         searcher = {"fifo-random": "random", "fifo-grid": "grid", "fifo-bo": "bayesopt", "fifo-rea": None}[kind]
         if kind == "fifo-rea":
             from syne_tune.optimizer.schedulers.searchers.regularized_evolution import RegularizedEvolution
-            sr = make(RegularizedEvolution, cs, metric="m", mode=mode, random_seed=seed, population_size=3, sample_size=2)
+            sr = make(RegularizedEvolution, cs, metric="m", mode=mode, random_seed=seed, population_size=2, sample_size=2)
             return make(FIFOScheduler, cs, searcher=sr, metric="m", mode=mode, random_seed=seed)
         so = dict(kw.pop("search_options", {}))
         if kind == "fifo-bo":
@@ -85,6 +85,7 @@ class Twin:
         self.last = {}
         self.nfail = 0
         self.suggestions = []           # configs of all new trials (for duplicate checks)
+        self.ndone = 0                  # trials that completed (searchers such as REA only learn from completed trials)
 
     def _suggest(self, sch, trials, nid):
         s = sch.suggest(nid)
@@ -134,8 +135,11 @@ class Twin:
                     exhausted = True
                     sym.event("suggest -> None")
                     continue
+                if self.ndone >= 2:
+                    sym.goal("suggest-after-2-completions")
                 if oa[0] == "start":
                     if nid >= self.T:
+                        sym.event("suggest beyond T -> %s" % (oa[1],))
                         break
                     self.suggestions.append(oa[1])
                     for which, sch, trials, s in (("a", self.A, self.trialsA, sa),) + ((("b", self.B, self.trialsB, sb),) if both else ()):
@@ -193,6 +197,7 @@ class Twin:
                         rb["m"] = self.map_b(v)
                         self.B.on_trial_complete(self.trialsB[tid], rb)
                     self.running.remove(tid)
+                    self.ndone += 1
             elif kind == "fail":
                 self.A.on_trial_error(self.trialsA[tid])
                 if both:
@@ -209,6 +214,7 @@ class Twin:
                     rb["m"] = self.map_b(ra["m"])
                     self.B.on_trial_complete(self.trialsB[tid], rb)
                 self.running.remove(tid)
+                self.ndone += 1
                 sym.goal("complete")
                 sym.event("complete t%d" % tid)
         sym.goal("end")
